@@ -658,6 +658,9 @@ def build_script(rng, want_sat):
             concl = other
         else:
             j = rng.randrange(k)
+            after = [i_ for i_ in range(k) if nest_at is not None and i_ >= nest_at]
+            if after and rng.random() < 0.7:
+                j = rng.choice(after)          # the last step depends on an assumption made AFTER the inner block
             lines.append((inner, '(step %s (cl %s) :rule th_resolution :premises (%s))' % (inner, smt(As[j]), hids[j]),
                           'th_resolution'))
             concl = As[j]
@@ -670,7 +673,8 @@ def build_script(rng, want_sat):
             kd = rng.choice(kinds)
             if kd == 'drop-assm':
                 cand = [i for i in range(k)]
-                # preferably keep the discharge of an assumption that is not used and drop a used one, or the other way
+                if not use_outer and rng.random() < 0.7:
+                    cand = [j]                  # leave out exactly the assumption the last step depends on
                 del bad[rng.choice(cand)]
             elif kd == 'swap-assms':
                 i, j2 = rng.sample(range(k), 2)
